@@ -435,8 +435,8 @@ func handlerPrimitives(p *core.Program, e *engines, op string) ([]primInfo, stri
 		fn := eng.CalleeOf(info, c)
 		return fn != nil && e.vm.Prims[fn] == kind
 	}
-	popIdx := map[ast.Node]int{}           // the pop call expressions, numbered in evaluation order
-	defs := map[types.Object]ast.Expr{}    // locals of the clause with one definition
+	popIdx := map[ast.Node]int{}        // the pop call expressions, numbered in evaluation order
+	defs := map[types.Object]ast.Expr{} // locals of the clause with one definition
 	ndef := map[types.Object]int{}
 	var pushes []*ast.CallExpr
 	n := 0
